@@ -16,7 +16,8 @@ RULE = ('histories of geometry edits as JSON op lists with index arguments resol
         'long on recipe geometries (rectangular, shipped pieces up to 300 columns, hand-built). After every operation an '
         'independently recomputed structural invariant is evaluated clause by clause; a finding is named (operation, clause). '
         'Non-trivial = a history with at least 2 different operation kinds; distinct = history JSON.'
-        ' Also: reduce() from any state (always held to its promise), adders called with a name already present (documented no-op), copied layer structures starting above / below the current top.')
+        ' Also: reduce() from any state (always held to its promise), adders called with a name already present (documented no-op), copied layer structures starting above / below the current top.'
+        ' Rounds 7-10: refine with bisect_edge_columns; renames refused for an unknown name at every position; the donor of copy_layers lives on and is edited (also with another surface-layer name); decompose_columns from any state, held to its closing work; untidy vertical shifts.')
 ASSUMPTIONS = ['preconditions from docs/code honoured by construction: refine on 3/4-sided columns, split_column on 4-sided columns, '
                'dmplex order only without many-sided columns, names within naming capacity, reduce to a connected subset',
                'raw list mutators whose derived state is documented to be refreshed by the caller are judged like every other edit '
